@@ -206,14 +206,23 @@ func VfAuthChain() {
 	}
 	zzvfbe.NoFail = map[string]bool{"GetObjectLockConfiguration": true, "GetObjectRetention": true, "GetObjectLegalHold": true}
 
-	c := controllers.New(be, vfIAM{}, nil, nil, nil, false, false)
+	// the chain is the one the real server constructor installs: s3api.New registers the middlewares with app.Use and the
+	// routes through the real router; the registrations are recorded by the fiber model and looked up here
 	root := middlewares.RootUserConfig{Access: "root", Secret: "rootsec"}
-	chain := []fiber.Handler{
-		middlewares.VerifyPresignedV4Signature(root, vfIAM{}, nil, nil, "us-east-1", false),
-		middlewares.VerifyV4Signature(root, vfIAM{}, nil, nil, "us-east-1", false),
-		middlewares.VerifyMD5Body(nil),
-		middlewares.AclParser(be, nil, false),
-		rt.h(c),
+	zzvfbe.Routes = nil
+	_, nerr := New(new(fiber.App), be, root, "7070", "us-east-1", vfIAM{}, nil, nil, nil, nil, WithQuiet())
+	zzvf.Assert(nerr == nil, "server-constructed")
+	pattern := "/:bucket/:key/*"
+	switch {
+	case rt.name == "ListBuckets":
+		pattern = "/"
+	case rt.bucket:
+		pattern = "/:bucket"
+	}
+	chain := zzvfbe.ChainFor(rt.method, pattern)
+	zzvf.Assert(len(chain) >= 2, "route-is-registered-behind-middlewares")
+	if len(chain) == 0 {
+		return
 	}
 	for i, h := range chain {
 		before := zzvfbe.W.NextCalls
